@@ -11,6 +11,7 @@ import (
 //     non-nil error, WalkDir returns fn's result;
 //   - otherwise fn is called for the entries walkEntries(dir), in order, with a nil error; a non-nil result ends the
 //     walk and is returned (fs.SkipDir is not modelled: the callback is required to return nil on entries).
+//
 // The entry loop is cut at the invariants of the loop contract "<function>#walk".
 // TRUSTED: this is the assumed contract of fs.WalkDir and os.DirFS, in executable-model form.
 func (x *Exec) walkDir(call *ast.CallExpr, args []*Val, st *St, fr *Frame, k kval) {
